@@ -69,7 +69,7 @@ func VerifC14_UnaryServer() {
 	}
 	if customExceeded {
 		opts = append(opts, WithLimitExceededResponseClassifier(func(ctx context.Context, method string, req interface{}, l core.Limiter) (interface{}, codes.Code, error) {
-			return "busy", code, errors.New("busy")
+			return "busy", code, errors.New("busy") // `code` is re-assigned before the second call below
 		}))
 	}
 	// options are order-independent: every rotation of the list (a stated bound on the n! orders)
@@ -96,6 +96,15 @@ func VerifC14_UnaryServer() {
 		if customExceeded {
 			verif.Assert("unary-server-refused-response", resp == "busy")
 		}
+		// a second refused call on the same interceptor and method: the classifier is consulted again
+		// (its answer may differ from call to call)
+		code = verifCodes[verif.Choice("code2", len(verifCodes))]
+		_, err2 := ic(context.Background(), "req2", &golangGrpc.UnaryServerInfo{FullMethod: "/svc/m"}, handler)
+		want2 := codes.ResourceExhausted
+		if customExceeded {
+			want2 = code
+		}
+		verif.Assert("unary-server-second-refusal-classified-again", handlerCalls == 0 && lim.calls == 2 && err2 != nil && verif.StatusCode(err2) == uint32(want2))
 		verif.Reach("refused")
 		return
 	}
@@ -120,7 +129,14 @@ func VerifC14_UnaryClient() {
 	invErrNil := verif.Bool("invokerErrNil")
 	customClassifier := verif.Bool("customResponseClassifier")
 	rt := ResponseType(verif.Choice("classified", 3))
+	customExceeded := verif.Bool("customExceededClassifier")
+	code := verifCodes[verif.Choice("code", len(verifCodes))]
 	opts := []InterceptorOption{WithLimiter(lim), WithName("c"), WithTags([]string{"k", "v"})}
+	if customExceeded {
+		opts = append(opts, WithLimitExceededResponseClassifier(func(ctx context.Context, method string, req interface{}, l core.Limiter) (interface{}, codes.Code, error) {
+			return nil, code, errors.New("busy")
+		}))
+	}
 	if customClassifier {
 		opts = append(opts, WithClientResponseTypeClassifier(func(ctx context.Context, method string, req, reply interface{}, err error) ResponseType {
 			return rt
@@ -141,7 +157,18 @@ func VerifC14_UnaryClient() {
 	verif.Assert("unary-client-acquired-from-configured-limiter", lim.calls == 1)
 	if !lim.grant {
 		verif.Assert("unary-client-refused-no-call", calls == 0 && lim.listener == nil)
-		verif.Assert("unary-client-refused-status", err != nil && verif.StatusCode(err) == uint32(codes.ResourceExhausted))
+		want := codes.ResourceExhausted
+		if customExceeded {
+			want = code
+		}
+		verif.Assert("unary-client-refused-status", err != nil && verif.StatusCode(err) == uint32(want))
+		code = verifCodes[verif.Choice("code2", len(verifCodes))]
+		err2 := ic(context.Background(), "/svc/m", "req2", "reply", nil, invoker)
+		want2 := codes.ResourceExhausted
+		if customExceeded {
+			want2 = code
+		}
+		verif.Assert("unary-client-second-refusal-classified-again", calls == 0 && lim.calls == 2 && err2 != nil && verif.StatusCode(err2) == uint32(want2))
 		verif.Reach("refused")
 		return
 	}
